@@ -69,6 +69,36 @@ def writes_to_other(ctx, effs):
     return out
 
 
+def other_is_shorter(ctx, bb):
+    """a dominating fact says the target (arg 2) is not longer than the item: len(other) < X,
+    len(other) <= X, or min(X, len(other)) < X, with X free of `other`"""
+    from expr import facts_at, nobb
+    from r_alloc import walk
+
+    def about_other(t):
+        return any(nd[0] == "place" and nd[2] == ("arg", 2) for nd in walk(t))
+
+    def len_of_other(t):
+        return t[0] in ("call", "un", "len") and about_other(t) and (
+            (t[0] == "call" and t[1][1] == "len") or t[0] in ("un", "len"))
+    for f in facts_at(ctx, bb):
+        if f[0] not in ("Lt", "Le", "Gt", "Ge"):
+            continue
+        op, x, y = f[0], nobb(f[1]), nobb(f[2])
+        if op in ("Gt", "Ge"):
+            op = {"Gt": "Lt", "Ge": "Le"}[op]
+            x, y = y, x
+        if about_other(y):
+            continue
+        if len_of_other(x):
+            return True
+        if op == "Lt" and x[0] == "call" and x[1][1] == "min" and len(x[2]) == 2:
+            a, c = x[2]
+            if (a == y and len_of_other(c)) or (c == y and len_of_other(a)):
+                return True
+    return False
+
+
 def r_onto(F, R, cat=None):
     cat = cat or Catalogue(F)
     n = 0
@@ -93,15 +123,18 @@ def r_onto(F, R, cat=None):
             R.check("R-ONTO", b.label(), ok_all, construct="every tuple component of *other is written",
                     where=b.where(), detail="owned %s; components without a write on some path: %s" % (owned, missing))
             continue
+        # an append to *other where *other is known to be the shorter side extends it to the
+        # item's length (`if shared < len { other.extend(rest) } else { other.truncate(len) }`)
+        grow = {bb for (bb, p, k, _) in ws if k == "append" and p == () and other_is_shorter(ctx, bb)}
         full = {bb for (bb, p, k, _) in ws if k in ("assign", "clone_onto", "length") and
-                (p == () or (len(p) == 2 and p[0].startswith("v:")))}
+                (p == () or (len(p) == 2 and p[0].startswith("v:")))} | grow
         ok = bool(full) and not b.can_return_avoiding(full)
         R.check("R-ONTO", b.label(), ok, construct="every path writes *other",
                 where=b.where(), detail="owned %s; %d write sites: %s" % (
                     owned, len(ws), sorted({"%s %s" % (k, ".".join(p) or "*other") for (_, p, k, _) in ws})))
         if owned and owned.startswith("std::vec::Vec<"):
             lf = {bb for (bb, p, k, _) in ws if k == "length" and p == ()} | \
-                 {bb for (bb, p, k, _) in ws if k == "assign" and p == ()}
+                 {bb for (bb, p, k, _) in ws if k == "assign" and p == ()} | grow
             ok2 = bool(lf) and not b.can_return_avoiding(lf)
             R.check("R-ONTO", b.label(), ok2, construct="every path forces the length of *other",
                     where=b.where(), detail="length-forcing sites: %s" % sorted(
